@@ -331,6 +331,10 @@ func (s *sched) run(fns [2]func(), plan []swSeg) (trace []swTrace, blocked int, 
 				if !canSwitch {
 					return trace, blocked, true
 				}
+				// slow is not blocked: only a goroutine that is parked on a lock is given up on
+				if !parkedOnLock(s.gids[t]) && time.Now().Before(deadline) {
+					continue
+				}
 				blocked++
 				for i := len(trace) - 1; i >= 0; i-- {
 					if trace[i].t == t {
@@ -884,4 +888,18 @@ func runSweepOne(c *sweepCase, pair [2]string, plan []swSeg, out *Out, stats *St
 	}
 	stats.Cases++
 	stats.Ops += len(trace)
+}
+
+// parkedOnLock: is goroutine gid waiting for a mutex (as opposed to running, runnable or slow)?
+func parkedOnLock(gid int64) bool {
+	buf := make([]byte, 1<<20)
+	n := runtime.Stack(buf, true)
+	head := fmt.Sprintf("goroutine %d [", gid)
+	for _, g := range strings.Split(string(buf[:n]), "\n\n") {
+		if strings.HasPrefix(g, head) {
+			line := g[:strings.Index(g+"\n", "\n")]
+			return strings.Contains(line, "semacquire") || strings.Contains(line, "sync.Mutex") || strings.Contains(line, "sync.RWMutex")
+		}
+	}
+	return false
 }
